@@ -32,7 +32,7 @@ CONSTANTS ProviderTargets,   \* request types of the provider answered to POST
           EmptyBodyTargets,  \* request types whose valid request has an empty s12:Body
           UnimplTargets,     \* request types the provider answers with a 'not implemented' fault
           MutatingTargets,   \* request types whose acceptance may change MDIB / subscription table
-          Part,              \* "all" | "dopost" | "handler" : which requests Init enumerates
+          Part,              \* "all" | "dopost" | "handler" | "trace": which requests Init enumerates
           EmitOnly           \* TRUE: only enumerate and print the requests (no pipeline steps)
 
 VARIABLES req,        \* the abstract request (constant along a behaviour)
@@ -205,7 +205,8 @@ GetRequests ==
   {[via |-> "handler", method |-> "GET", target |-> t, path |-> p, framing |-> "na", coding |-> "na",
     xml |-> "na", envelope |-> "na"] : t \in GetTargets, p \in PrefixPaths \cup DeepPaths}
 
-Requests == CASE Part = "dopost" -> DoPostRequests
+Requests == CASE Part = "trace" -> {}      \* PipelineTrace: the requests come from the recorded file
+              [] Part = "dopost" -> DoPostRequests
               [] Part = "handler" -> HandlerRequests \cup GetRequests
               [] OTHER -> HandlerRequests \cup DoPostRequests \cup GetRequests
 
@@ -315,8 +316,9 @@ HandledOnlyIfAdmissible == handled => \A i \in 1..6 : Verdict(StageSeq[i], req) 
 AcceptOnlyHandled == (Done /\ out.kind = "proper") => handled
 
 \* sanity of the domain: every class value occurs, valid requests must be accepted
-DomainOK == /\ \A t \in PostTargets \ UnimplTargets : \E r \in Requests : r.target = t /\ MustAccept(r)
-            /\ \A r \in Requests : AllowedKinds(r) # {}
-            /\ \A r \in Requests : r.target \in UnimplTargets => MustReject(r)
+DomainOK == \/ Part = "trace"
+            \/ /\ \A t \in PostTargets \ UnimplTargets : \E r \in Requests : r.target = t /\ MustAccept(r)
+               /\ \A r \in Requests : AllowedKinds(r) # {}
+               /\ \A r \in Requests : r.target \in UnimplTargets => MustReject(r)
 ASSUME DomainOK
 =============================================================================
